@@ -122,8 +122,91 @@ def _mdiv(a, b):
     return tuple(out)
 
 
+_LK = {}
+
+
 def _lexkey(m):
-    return tuple((-v, e) for v, e in m)
+    k = _LK.get(m)
+    if k is None:
+        k = _LK[m] = tuple((-v, e) for v, e in m)
+    return k
+
+
+class _Rev:
+    __slots__ = ('k', 'm')
+
+    def __init__(self, m):
+        self.k = _lexkey(m)
+        self.m = m
+
+    def __lt__(self, o):
+        return self.k > o.k
+
+
+_P = (1 << 61) - 1
+_PTS = {}
+
+
+def _pt(v):
+    x = _PTS.get(v)
+    if x is None:
+        x = _PTS[v] = (v * 0x9E3779B97F4A7C15 + 0x1234567) % _P or 7
+    return x
+
+
+def _cmod(c):
+    if type(c) is int:
+        return c % _P
+    return (c.numerator % _P) * pow(c.denominator % _P, -1, _P) % _P
+
+
+def _uni_mod(poly, x):
+    """Specialise every variable except x at fixed points mod _P; returns the
+    dense coefficient list (index = degree in x)."""
+    out = {}
+    for m, c in poly.t.items():
+        val = _cmod(c)
+        e = 0
+        for v, ee in m:
+            if v == x:
+                e = ee
+            else:
+                val = val * pow(_pt(v), ee, _P) % _P
+        out[e] = (out.get(e, 0) + val) % _P
+    deg = max(out) if out else -1
+    return [out.get(i, 0) for i in range(deg + 1)]
+
+
+def _may_divide(f, g):
+    """Sound filter: False only if g certainly does not divide f."""
+    gv = g.vars()
+    if not gv:
+        return True
+    x = min(gv)
+    a = _uni_mod(f, x)
+    b = _uni_mod(g, x)
+    while b and b[-1] == 0:
+        b.pop()
+    while a and a[-1] == 0:
+        a.pop()
+    if not b:
+        return True          # unlucky specialisation: cannot tell
+    if not a:
+        return True
+    if len(b) == 1:
+        return True
+    inv = pow(b[-1], -1, _P)
+    a = a[:]
+    db = len(b) - 1
+    while len(a) - 1 >= db:
+        c = a[-1]
+        if c:
+            q = c * inv % _P
+            off = len(a) - 1 - db
+            for i, bc in enumerate(b):
+                a[off + i] = (a[off + i] - q * bc) % _P
+        a.pop()
+    return not any(a)
 
 
 class Poly:
@@ -293,21 +376,25 @@ class Poly:
                     return None
                 r[q] = _nrm(Fraction(c) / gc) if gc != 1 else c
             return Poly(r)
-        if len(self.t) < len(g.t) and True:
-            # a product g*q with q != 0 has at least ... no general bound; fall through
-            pass
+        if not _may_divide(self, g):
+            return None
+        import heapq
         gm, gc = g.lead()
         rest = [(m, c) for m, c in g.t.items() if m != gm]
         r = dict(self.t)
+        heap = [_Rev(m) for m in r]
+        heapq.heapify(heap)
         q = {}
-        steps = 0
-        limit = 4 * len(self.t) + 64
         while r:
-            m = max(r, key=_lexkey)
+            while True:
+                top = heapq.heappop(heap)
+                m = top.m
+                if m in r:
+                    break
             qm = _mdiv(m, gm)
             if qm is None:
                 return None
-            qc = _nrm(Fraction(r[m]) / gc)
+            qc = _nrm(Fraction(r[m]) / gc) if gc != 1 else r[m]
             q[qm] = qc
             del r[m]
             for m2, c2 in rest:
@@ -315,15 +402,13 @@ class Poly:
                 x = r.get(mm)
                 if x is None:
                     r[mm] = _nrm(-qc * c2)
+                    heapq.heappush(heap, _Rev(mm))
                 else:
                     x = _nrm(x - qc * c2)
                     if x:
                         r[mm] = x
                     else:
                         del r[mm]
-            steps += 1
-            if steps > limit:
-                return None
         return Poly(q)
 
     def content_split(self):
